@@ -145,3 +145,76 @@ Example C01_two_dataset_needs_two :
   length (block (adm_link_only nat ds idlt) [rule] All All) = 3 /\
   length (block (adm_all nat) [rule] (part nat ds All 0) (part nat ds All 2)) = 1.
 Proof. vm_compute. split; reflexivity. Qed.
+
+(* ------------------------------------------------------------------------------------ *)
+(* Unordered pairs (dedupe_only / link_and_dedupe: admissibility is the strict order on ids) *)
+Theorem C01_each_unordered_pair_at_most_one_orientation :
+  forall (rec : Type) (id : rec -> nat) (rules : list (rec -> rec -> tv)) L n m l r,
+    In (n, (l, r)) (block (adm_lt rec id) rules L L) ->
+    In (m, (r, l)) (block (adm_lt rec id) rules L L) -> False.
+Proof. intros. eapply one_orientation_only; eassumption. Qed.
+Print Assumptions C01_each_unordered_pair_at_most_one_orientation.
+
+(* the two-sided bound for rules that need not be symmetric in l and r: a pair of distinct
+   records with some rule TRUE in both orientations is present (in exactly one orientation, by the
+   theorem above); an orientation in which no rule is TRUE is absent; for symmetric rules the two
+   together give exact set equality on unordered pairs *)
+Theorem C01_asymmetric_rules_two_sided_bound :
+  forall (rec : Type) (id : rec -> nat) (rules : list (rec -> rec -> tv)) L l r,
+    rules <> [] -> In l L -> In r L -> id l <> id r ->
+    ((exists rk, In rk rules /\ rk l r = T) -> (exists rk, In rk rules /\ rk r l = T) ->
+     (exists n, In (n, (l, r)) (block (adm_lt rec id) rules L L)) \/
+     (exists n, In (n, (r, l)) (block (adm_lt rec id) rules L L))) /\
+    ((forall rk, In rk rules -> rk l r <> T) ->
+     forall n, ~ In (n, (l, r)) (block (adm_lt rec id) rules L L)).
+Proof.
+  intros rec id rules L l r Hne Hl Hr Hid. split.
+  - intros H1 H2. apply present_if_true_both_ways; assumption.
+  - intros H n. apply absent_if_true_neither_way; assumption.
+Qed.
+Print Assumptions C01_asymmetric_rules_two_sided_bound.
+
+(* positive witness of the hypotheses of C01_two_dataset_split_equiv: two datasets 0 and 1,
+   ids 1,2 in dataset 0 and 11,12 in dataset 1 *)
+Example C01_two_dataset_positive_example :
+  let ds := fun x : nat => x / 10 in
+  let All := [1; 2; 11; 12] in
+  0 < 1 /\ (forall x, In x All -> ds x = 0 \/ ds x = 1) /\
+  (forall l r, In l All -> In r All -> ds l < ds r -> Nat.ltb l r = true) /\
+  length (block (adm_link_only nat ds Nat.ltb) [fun _ _ => T] All All) = 4 /\
+  length (block (adm_all nat) [fun _ _ => T] (part nat ds All 0) (part nat ds All 1)) = 4.
+Proof.
+  cbv zeta. split; [lia|]. split.
+  - intros x Hx. cbn in Hx. repeat (destruct Hx as [<-|Hx]; [cbn; auto|]). destruct Hx.
+  - split; [|split; vm_compute; reflexivity].
+    intros l r Hl Hr. cbn in Hl, Hr.
+    repeat (destruct Hl as [<-|Hl]; [repeat (destruct Hr as [<-|Hr]; [cbn; intros; try lia; reflexivity|]); destruct Hr|]).
+    destruct Hl.
+Qed.
+
+(* ------------------------------------------------------------------------------------ *)
+(* Known finding KF-C01-exploding-preceded, refuted on the faithful model: for the rule list
+   [plain r0; exploding r1] the code excludes r0 inside r1's marginal id table on the EXPLODED
+   variants.  Records are lists of tokens (the array); r0 is array equality (l.arr = r.arr), r1 is
+   token equality on the exploded variants.  Arrays [a,b], [b,c], [a,b]: the pairs (1,2) and (2,3)
+   share an element but are produced by neither rule.
+   The skeleton obligations (C01_skeleton_sound) evaluate a preceding rule's placeholder atoms on
+   the parent pair; this is faithful only when the preceding rules do not mention the exploded
+   column, which holds for the placeholders (distinct columns per rule) and is the stated
+   precondition of the skeleton tie for exploding rules. *)
+Definition kf_records : list (nat * list nat) := [(1, [10; 11]); (2, [11; 12]); (3, [10; 11])].
+Definition kf_explode (x : nat * list nat) : list (nat * list nat) := map (fun t => (fst x, [t])) (snd x).
+Definition kf_r0 (l r : nat * list nat) : tv := of_bool (if list_eq_dec Nat.eq_dec (snd l) (snd r) then true else false).
+Definition kf_adm (l r : nat * list nat) : bool := Nat.ltb (fst l) (fst r).
+Theorem C01_exploding_preceded_refuted :
+  exists l r,
+    In l kf_records /\ In r kf_records /\ kf_adm l r = true /\
+    (* the specification: some rule is TRUE for the pair (rule 1 on some pair of variants) *)
+    r1_spec _ kf_explode kf_r0 l r = T /\
+    (* but the code's composition produces the pair under neither match key *)
+    ~ In (l, r) (map snd (block_plain_then_exploding _ kf_adm kf_explode kf_r0 kf_r0 kf_records)).
+Proof.
+  exists (1, [10; 11]), (2, [11; 12]). repeat split; try (cbn; tauto); try (vm_compute; reflexivity).
+  vm_compute. intros H. repeat (destruct H as [H|H]; [discriminate H|]). exact H.
+Qed.
+Print Assumptions C01_exploding_preceded_refuted.
